@@ -567,14 +567,15 @@ def lhs_case(n, dim):
                 max_decisions=80)
 
 
-def lhs_rows_case(name, mk):
+def lhs_rows_case(name, mk, extra_var=False):
     """LHSSampler with k=2 parameter rows of a parameter-dependent shape: the Latin hypercube of row i is laid over
     the (tight) bounding box of row i, so that every slab of THAT row's box receives exactly one proposal"""
-    cname = "lhs_rows/%s/k2" % name
+    cname = "lhs_rows/%s/k2%s" % (name, "/extra_parameter_variable" if extra_var else "")
 
     def body(env):
         sh = mk(env)
-        P, rows = SH.params(env, sh.pvars, 2)
+        # extra_var: the rows carry one more variable the domain does not depend on (three-factor sampler products)
+        P, rows = SH.params(env, list(sh.pvars) + ([("zz", 1)] if extra_var else []), 2)
         L = env.L
         for prm in rows:
             env.assume(sh.oset.positive(prm, L))
@@ -642,6 +643,7 @@ def cases(tier):
     cs.append(product_law_case(translated=True))
     cs.append(lhs_rows_case("Interval[t]", lambda env: SH.interval(env, dep="t")))
     cs.append(lhs_rows_case("Circle[t]", lambda env: SH.circle(env, dep="t")))
+    cs.append(lhs_rows_case("Interval[t]", lambda env: SH.interval(env, dep="t"), extra_var=True))
     for kind in ("Interval", "Circle"):
         for n in ((2, 3) if quick else (1, 2, 3, 4)):
             cs.append(grid_case(kind, n))
